@@ -3,73 +3,173 @@ import AdeptProofs.Lemmas.Storage
 # C07 — array data lives while referenced; only copy-construction and link share it
 
 Property theorems only; helper lemmas live in `AdeptProofs/Lemmas/Storage.lean`.
-All statements are about `AdeptModel/Storage.lean`, the transcription of `Storage::add_link/remove_link` and of the
-`Array` constructors, destructor, `link`, `clear`, `resize`, copy and move assignment, `soft_link` and slicing
-(rank 1), WITH the repairs fixes/F-01.patch and fixes/F-24.patch; the correspondence check (checks/c07.py) ties that
-model to the C++ on every run.  Histories are arbitrary finite lists of `Op`; an operation that throws leaves the
-state unchanged (`stepOrStay`); temporaries are ordinary pool objects that are destroyed by a later `destroy`.
-The pinned (unrepaired) move-assignment rule is refuted in `AdeptProofs/Refute/MoveFromExternal.lean`.
+All statements are about `AdeptModel/Storage.lean`, the transcription of `Storage::add_link/remove_link` (with the
+gradient registration of active Storage objects) and of the constructors, destructor, `link`, `clear`, `resize`, copy
+and move assignment, `swap`, `soft_link` and every view-returning member function (slices of rank 1 and 2, `[]`,
+`T()`, `diag_vector`, `submatrix_on_diagonal`, `reshape`, `permute`) of `Array<1>`, `Array<2>`, active `Array<1>` and
+`SpecialMatrix` (symmetric, tridiagonal), WITH the repairs fixes/F-01.patch, fixes/F-24.patch and F-74 (a failed resize leaves the array empty); the correspondence
+check (checks/c07.py) ties that model to the C++ on every run.  The theorems are generic over the KIND of object.
+Histories are arbitrary finite lists of `Op`; an operation the library rejects (it throws, the caller catches) leaves
+the state unchanged (`stepOrStay`); an allocation fault scheduled by `Op.failNext k` makes the k-th next data allocation
+throw `std::bad_alloc`: the operation then answers `.ok` with `thrown` set and the state the code leaves; temporaries are ordinary pool objects that are destroyed by a later `destroy`.
+The pinned (unrepaired) move-assignment rule, and a view constructor that tests the extents after taking its link,
+are refuted in `AdeptProofs/Refute/MoveFromExternal.lean`.
 -/
 namespace Adept.Storage
 
 /-- no storage, no object: the invariant holds initially -/
 theorem C07_inv_init : Inv init := inv_init
 
-/-- every operation that completes preserves the invariant (one that throws changes nothing) -/
+/-- every operation that returns preserves the invariant — whether it completes or ends by throwing `std::bad_alloc`
+    out of a failed data allocation (then `s'.thrown` and `s'` is the state the C++ leaves); a request the library
+    rejects changes nothing -/
 theorem C07_inv_step {s s' : St} (op : Op) (h : Inv s) (hs : step s op = .ok s') : Inv s' := inv_step op h hs
 
-/-- hence it holds after every finite history of life-cycle operations, whatever its length or order -/
+/-- hence it holds after every finite history of life-cycle operations, whatever its length or order, rejected
+    operations and scheduled allocation faults (`Op.failNext`) included -/
 theorem C07_inv_reachable (ops : List Op) : Inv (run init ops) := inv_run ops inv_init
 
 /-- what the invariant says: a Storage that has not been deleted has exactly as many links as there are live
-    objects referring to it, and at least one; an object with a Storage refers to one that has not been deleted,
-    points into its data block and its whole view lies inside it (no dangling view); a deleted Storage has no
-    referrer; the two global counters count creations and deletions -/
+    objects (of any kind) referring to it, and at least one; an object with a Storage refers to one that has not been
+    deleted, points into its data block and its whole extent lies inside it (no dangling view); a deleted Storage has
+    no referrer; the two global counters count creations and deletions; the gradients registered are exactly those
+    of the active Storage objects that have not been deleted -/
 theorem C07_inv_meaning {s : St} (h : Inv s) :
     (∀ σ r, s.heap[σ]? = some r → r.freed = false → r.nLinks = refs σ s.pool ∧ 0 < r.nLinks) ∧
     (∀ o, o ∈ s.pool → ∀ σ, o.storage = some σ →
-        ∃ r, s.heap[σ]? = some r ∧ r.freed = false ∧ o.region = .sto σ ∧ Inside o r.size) ∧
+        ∃ r, s.heap[σ]? = some r ∧ r.freed = false ∧ o.region = .sto σ ∧ o.off + extentOf o ≤ r.size) ∧
     (∀ σ r, s.heap[σ]? = some r → r.freed = true → refs σ s.pool = 0) ∧
-    s.created = s.heap.length ∧ s.deleted = s.heap.countP (fun r => r.freed) :=
-  ⟨h.counts, h.objs, fun _ _ hr hf => h.freed_no_ref hr hf, h.created, h.deleted⟩
+    s.created = s.heap.length ∧ s.deleted = s.heap.countP (fun r => r.freed) ∧
+    s.gradReg = gradSum s.heap :=
+  ⟨h.counts, h.objs, fun _ _ hr hf => h.core.freed_no_ref hr hf, h.created, h.deleted, h.grad⟩
 
 /-- library-owned data are released exactly once: `remove_link` deletes the Storage exactly when it takes the last
-    link and counts that deletion once; on a deleted Storage every further `remove_link`/`add_link`/`n_links` is a
-    fault of the model, never a second deletion; `remove_link` at zero links throws; and `n_storage_objects()` is the
-    number of Storage objects not yet deleted -/
+    link, counts that deletion once and — for an active Storage — unregisters its gradients then and only then; on a
+    deleted Storage every further `remove_link`/`add_link`/`n_links` is a fault of the model, never a second deletion;
+    `remove_link` at zero links throws; and `n_storage_objects()` is the number of Storage objects not yet deleted -/
 theorem C07_freed_once {s : St} {σ : Nat} {r : Sto} (hr : s.heap[σ]? = some r) :
     (∀ s', removeLink s σ = .ok s' →
         r.freed = false ∧ 0 < r.nLinks ∧
-        ((r.nLinks = 1 ∧ s'.heap[σ]? = some { nLinks := 0, freed := true, size := r.size } ∧ s'.deleted = s.deleted + 1) ∨
-         (1 < r.nLinks ∧ s'.heap[σ]? = some { nLinks := r.nLinks - 1, freed := false, size := r.size } ∧
-            s'.deleted = s.deleted))) ∧
+        ((r.nLinks = 1 ∧ s'.heap[σ]? = some { nLinks := 0, freed := true, size := r.size, active := r.active } ∧
+            s'.deleted = s.deleted + 1 ∧ s'.gradReg = (if r.active then s.gradReg - r.size else s.gradReg)) ∨
+         (1 < r.nLinks ∧ s'.heap[σ]? = some { nLinks := r.nLinks - 1, freed := false, size := r.size, active := r.active } ∧
+            s'.deleted = s.deleted ∧ s'.gradReg = s.gradReg))) ∧
     (r.freed = true → removeLink s σ = .error .fault ∧ addLink s σ = .error .fault ∧ nLinksOf s σ = .error .fault) ∧
-    (r.freed = false → r.nLinks = 0 → removeLink s σ = .error .invalidOperation) ∧
+    (r.freed = false → r.nLinks = 0 → removeLink s σ = .error .linkUnderflow) ∧
     (Inv s → nStorageObjects s = (s.heap.countP (fun r => !r.freed) : Nat)) :=
   ⟨fun _ h => removeLink_deletes_iff hr h, freed_is_final hr, removeLink_at_zero hr, nStorageObjects_eq⟩
 
 /-- … and that never happens: after any history, no operation touches a deleted Storage object (`fault`) or calls
-    `remove_link` with no link left (`invalid_operation`) — `delete this` cannot run twice and the throw in
-    `Storage::remove_link` is unreachable through `Array`.  What can still fail is a documented array exception, a
+    `remove_link` with no link left — `delete this` cannot run twice and the throw in `Storage::remove_link` is
+    unreachable through the array classes.  What can still fail is a documented array exception, a
     malformed request, or a data access through a stale soft link / external view (`badAccess`, the user's error). -/
 theorem C07_no_storage_fault (ops : List Op) (op : Op) :
-    step (run init ops) op ≠ .error .fault ∧ step (run init ops) op ≠ .error .invalidOperation :=
+    step (run init ops) op ≠ .error .fault ∧ step (run init ops) op ≠ .error .linkUnderflow :=
   no_storage_fault (inv_run ops inv_init) op
 
-/-- no leak: when the last array object has gone every Storage ever created has been deleted and
-    `n_storage_objects()` (created − deleted) is 0 -/
+/-- no leak: when the last array object has gone every Storage ever created has been deleted,
+    `n_storage_objects()` (created − deleted) is 0 and no gradient is left registered -/
 theorem C07_no_leak (ops : List Op) (hp : (run init ops).pool = []) :
-    (∀ (σ : Nat) (r : Sto), (run init ops).heap[σ]? = some r → r.freed = true) ∧ nStorageObjects (run init ops) = 0 :=
+    (∀ (σ : Nat) (r : Sto), (run init ops).heap[σ]? = some r → r.freed = true) ∧ nStorageObjects (run init ops) = 0 ∧
+    (run init ops).gradReg = 0 :=
   no_leak (inv_run ops inv_init) hp
 
-/-- copy construction, `link`/`>>=` and slicing share: the new (or re-linked) object points into the source's
-    allocation and holds the source's Storage, whose count goes up by exactly one while no other count moves -/
+/-- the gradients of an active array stay registered exactly as long as its data live: in every reachable state
+    `n_gradients_registered()` is the total size of the active Storage objects not yet deleted, so releasing the last
+    link of one (previous theorem) brings the count back by exactly its size, once -/
+theorem C07_gradients_exact (ops : List Op) : (run init ops).gradReg = gradSum (run init ops).heap :=
+  (inv_run ops inv_init).grad
+
+/-- an operation the library REJECTS is the identity on the state: the history goes on from the state before the
+    call, it can be struck from the history without changing anything that follows, and the invariant (exact
+    counts, exactly-once release) holds through it -/
+theorem C07_rejected_is_identity {s : St} {op : Op} {e : Err} (h : step s op = .error e) :
+    stepOrStay s op = s ∧ (Inv s → Inv (stepOrStay s op)) ∧
+    (∀ ops2, run s (op :: ops2) = run s ops2) :=
+  ⟨stepOrStay_rejected h, fun I => inv_stepOrStay op I,
+   fun ops2 => by simpa using run_skip_rejected (s := s) [] ops2 (op := op) (e := e) h⟩
+
+/-- anywhere in a history -/
+theorem C07_rejected_op_erasable (ops1 ops2 : List Op) {op : Op} {e : Err}
+    (h : step (run init ops1) op = .error e) : run init (ops1 ++ op :: ops2) = run init (ops1 ++ ops2) :=
+  run_skip_rejected ops1 ops2 h
+
+/-- the view constructor decides before it links: in a reachable state it either appends the view through
+    `add_link`, or it fails with `invalid_dimension` (negative extent), with `invalid_operation` (an active view of
+    data without a Storage) or because the request leaves the source — it never fails after having taken the link -/
+theorem C07_view_ctor_rejects_first {s : St} {b : Obj} {v : ViewSpec} (I : Inv s) (hm : b ∈ s.pool) :
+    (∃ s', viewCtor s b v = .ok s' ∧ linkNew s (viewObj b v) = .ok s') ∨
+    viewCtor s b v = .error .invalidDimension ∨ viewCtor s b v = .error .invalidOperation ∨
+    viewCtor s b v = .error .badOp := by
+  unfold viewCtor
+  split
+  · exact Or.inr (Or.inl rfl)
+  · split
+    · exact Or.inr (Or.inr (Or.inl rfl))
+    · split
+      · exact Or.inr (Or.inr (Or.inr rfl))
+      · simp only
+        split
+        · rename_i hc
+          obtain ⟨s', hs'⟩ := linkNew_total (fits_view I hm hc)
+          exact Or.inl ⟨s', hs', hs'⟩
+        · exact Or.inr (Or.inr (Or.inr rfl))
+
+/-- copy construction, `link`/`>>=` and every view-returning member function share: the new (or re-linked) object
+    points into the source's allocation and holds the source's Storage, whose count goes up by exactly one while no
+    other count moves (a view function may instead return a default-constructed object: `diag_vector` of an empty
+    matrix) -/
 theorem C07_shares_exactly {s s' : St} {j : Nat} {b : Obj} (hb : s.pool[j]? = some b) :
     (copyCtorAt s j = .ok s' → s'.pool = s.pool ++ [b] ∧ heapLinked s s' b) ∧
-    (∀ lo hi st, sliceAt s j lo hi st = .ok s' →
-        ∃ o, s'.pool = s.pool ++ [o] ∧ o.region = b.region ∧ o.storage = b.storage ∧ heapLinked s s' o) ∧
+    (∀ f, viewAt s j f = .ok s' →
+        ∃ o, s'.pool = s.pool ++ [o] ∧
+          ((o.region = b.region ∧ o.storage = b.storage ∧ heapLinked s s' o) ∨
+           (o.region = .null ∧ o.storage = none ∧ s'.heap = s.heap))) ∧
     (∀ i, Inv s → i ≠ j → linkAt s i j = .ok s' → s'.pool = s.pool.set i b ∧ b.region ≠ .null) :=
-  ⟨fun h => copyCtor_shares h hb, fun _ _ _ h => slice_shares h hb, fun _ I hij h => link_shares I hij h hb⟩
+  ⟨fun h => copyCtor_shares h hb, fun _ h => view_shares h hb, fun _ I hij h => link_shares I hij h hb⟩
+
+/-- passing by value and temporaries: an object made by copy construction or by any view function and destroyed
+    again (a by-value parameter at the end of the call, a temporary slice at the end of the full expression, the
+    local copy inside `T()`) leaves the whole state exactly as it was — the link taken is the link given back and
+    nothing is released -/
+theorem C07_temporary_roundtrip {s s1 s2 : St} {j : Nat} (I : Inv s)
+    (h1 : copyCtorAt s j = .ok s1 ∨ ∃ f, viewAt s j f = .ok s1)
+    (h2 : destroyAt s1 s.pool.length = .ok s2) : s2 = s := by
+  rcases h1 with h1 | ⟨f, h1⟩
+  · unfold copyCtorAt getObj at h1
+    cases hb : s.pool[j]? with
+    | none => simp [hb] at h1
+    | some b =>
+      simp only [hb] at h1
+      exact linkNew_destroy_roundtrip I (fits_of_mem I (List.mem_of_getElem? hb)) h1 h2
+  · unfold viewAt getObj at h1
+    cases hb : s.pool[j]? with
+    | none => simp [hb] at h1
+    | some b =>
+      simp only [hb] at h1
+      cases he : evalView b f with
+      | error e => simp [he] at h1
+      | ok r =>
+        cases r with
+        | empty k =>
+          simp only [he] at h1
+          exact linkNew_destroy_roundtrip I (fits_blank s k) (o := blank k) (by cases h1; rfl) h2
+        | ctor v =>
+          simp only [he] at h1
+          obtain ⟨hl, hc⟩ := viewCtor_ok h1
+          exact linkNew_destroy_roundtrip I (fits_view I (List.mem_of_getElem? hb) hc) hl h2
+
+/-- `swap(a, b)` exchanges the two objects (data pointer, Storage, extents) and touches no Storage -/
+theorem C07_swap_exchanges {s s' : St} {i j : Nat} {a b : Obj} (ha : s.pool[i]? = some a) (hb : s.pool[j]? = some b)
+    (h : swapAt s i j = .ok s') :
+    s'.pool = (s.pool.set i b).set j a ∧ s'.heap = s.heap ∧ s'.smem = s.smem ∧ s'.created = s.created ∧
+    s'.deleted = s.deleted := by
+  unfold swapAt at h
+  rw [getObj_ok.mpr ha, getObj_ok.mpr hb] at h
+  simp only at h
+  split at h
+  · cases h
+  · cases h; exact ⟨rfl, rfl, rfl, rfl, rfl⟩
 
 /-- `soft_link()` and arrays over external memory (user data, slices of a `FixedArray`) hold no Storage and never
     touch a count -/
@@ -78,14 +178,44 @@ theorem C07_soft_external_hold_nothing {s s' : St} :
         s'.pool = s.pool ++ [{ b with storage := none }] ∧ s'.heap = s.heap ∧ s'.created = s.created ∧
         s'.deleted = s.deleted) ∧
     (∀ x off n, newExternalAt s x off n = .ok s' →
-        s'.pool = s.pool ++ [{ region := .ext x, off := off, storage := none, len := n, stride := 1 }] ∧
+        s'.pool = s.pool ++ [{ kind := .vec, region := .ext x, off := off, storage := none, len := n.toNat, stride := 1 }] ∧
         s'.heap = s.heap ∧ s'.created = s.created ∧ s'.deleted = s.deleted) :=
   ⟨fun _ _ hb h => softLink_holds_nothing h hb, fun _ _ _ h => newExternal_holds_nothing h⟩
 
-/-- `assign_owns`: after `a = b`, by copy or by move, from an lvalue or a temporary, the target is
-    where it was (values stored through its existing view), or is the cleared array (empty := empty), or owns a Storage
-    created by this assignment, or — move only — holds the Storage the source owned with no other link, the source
-    taking what the target had.  Full strength: no hypothesis on what the source is (see `Owns`). -/
+/-- allocation faults: `resize` returns in exactly one of three ways — cleared; allocated; or, `std::bad_alloc` having
+    come out of `new Storage`, with the old link given back exactly once (the heap is that after the one `releaseAt`),
+    nothing created, no gradient moved, and the object left EMPTY: no data pointer, no extents, no Storage (so that
+    nothing points at released data and no later `clear`, `resize`, `link` or destructor removes a second link) — and
+    the invariant holds in each -/
+theorem C07_failed_allocation_state {s s' : St} {i : Nat} {strict : Bool} {n0 n1 v0 : Int} (I : Inv s)
+    (h : resizeAt s i strict n0 n1 v0 = .ok s') :
+    Inv s' ∧ ∃ a, s.pool[i]? = some a ∧
+      (clearAt s i = .ok s' ∨
+       (∃ m0 m1 s1, releaseAt s i = .ok s1 ∧ (allocTick s1).2 = false ∧ s' = resized (allocTick s1).1 i a.kind m0 m1 v0) ∨
+       (∃ s1, releaseAt s i = .ok s1 ∧ (allocTick s1).2 = true ∧ s'.thrown = true ∧
+          s'.heap = s1.heap ∧ s'.created = s1.created ∧ s'.deleted = s1.deleted ∧ s'.gradReg = s1.gradReg ∧
+          s'.pool = s.pool.set i (blank a.kind))) := by
+  refine ⟨resizeAt_inv I h, ?_⟩
+  obtain ⟨a, ha, hc | ⟨m0, m1, s1, _, hr, hf, rfl⟩ | ⟨m0, m1, s1, _, hr, hf, rfl⟩⟩ := resizeAt_cases h
+  · exact ⟨a, ha, Or.inl hc.2⟩
+  · exact ⟨a, ha, Or.inr (Or.inl ⟨m0, m1, s1, hr, hf, rfl⟩)⟩
+  · obtain ⟨_, a', ha', hp, _⟩ := releaseAt_spec I hr
+    rw [ha] at ha'; cases ha'
+    obtain ⟨t1, t2, t3, t4, t5, _⟩ := allocTick_frame s1
+    exact ⟨a, ha, Or.inr (Or.inr ⟨s1, hr, hf, allocTick_failed s1 hf, t1, t3, t4, t5, by simp [setObj, t2, hp]⟩)⟩
+
+/-- an object without a Storage — in particular the empty one a failed allocation leaves — gives nothing back: its
+    `clear`/destructor touches no count -/
+theorem C07_storageless_release_is_noop {s : St} {i : Nat} {a : Obj} (ha : s.pool[i]? = some a) (hs : a.storage = none) :
+    releaseAt s i = .ok s ∧ destroyAt s i = .ok { s with pool := s.pool.eraseIdx i } := by
+  have h1 : releaseAt s i = .ok s := by simp [releaseAt, getObj, ha, hs]
+  exact ⟨h1, by simp [destroyAt, h1]⟩
+
+/-- `assign_owns`: after `a = b`, by copy or by move, from an lvalue or a temporary, for every kind of object, the
+    target is where it was (values stored through its existing view), or is the cleared array (empty := empty), or owns a
+    Storage created by this assignment, or — move only — holds the Storage the source owned with no other link, the source
+    taking what the target had, or — the allocation for an empty target having failed — is the cleared array.
+    Full strength: no hypothesis on what the source is (see `Owns`). -/
 theorem C07_assign_owns {s s' : St} {i j : Nat} {a b : Obj} (I : Inv s)
     (ha : s.pool[i]? = some a) (hb : s.pool[j]? = some b)
     (h : assignCopyAt s i j = .ok s' ∨ assignMoveAt s i j = .ok s') : Owns s s' i j a b := by
@@ -123,12 +253,14 @@ theorem C07_assign_independent {s s' : St} {i j : Nat} {a b a' : Obj} (I : Inv s
     | ok b' =>
       simp only [hg] at hw
       split at hw
-      · rename_i hk
+      · rename_i c hk
         by_cases hla : a'.len = 0
-        · unfold readView; rw [hla]; rfl
+        · unfold readView; rw [cells_of_len_zero hla]; rfl
         · apply read_after_write_elsewhere hw
           intro hreg
-          have hlb : b'.len ≠ 0 := by omega
+          have hlb : b'.len ≠ 0 := by
+            intro h0
+            rw [cells_of_len_zero h0] at hk; simp at hk
           obtain ⟨e1, _, e3⟩ := owns_apart_from_source I O ha hb hij ha' (getObj_ok.mp hg) hla hlb hreg
           rcases hsep with hsep | hsep
           · exact hsep e3
@@ -143,22 +275,87 @@ theorem C07_assign_independent {s s' : St} {i j : Nat} {a b a' : Obj} (I : Inv s
 the target keeps its own Storage and still reads the old values; a concrete history with views outliving their
 parent ends with every Storage deleted. -/
 def witnessF01 : List Op :=
-  [.xnew 3 10, .new 3 1, .newExternal 0 0 3, .assignMove 0 1, .destroy 1, .xwrite 0 0 (-1)]
+  [.xnew 3 10, .new .vec 3 0 1, .newExternal 0 0 3, .assignMove 0 1, .destroy 1, .xwrite 0 0 (-1)]
 
-example : (run init witnessF01).pool = [ownerOf 0 3] ∧
-    (match readView (run init witnessF01) (ownerOf 0 3) with | .ok vs => vs | .error _ => []) = [10, 11, 12] ∧
+example : (run init witnessF01).pool = [ownerOf .vec 0 3 0] ∧
+    (match readView (run init witnessF01) (ownerOf .vec 0 3 0) with | .ok vs => vs | .error _ => []) = [10, 11, 12] ∧
     (run init witnessF01).exts = [⟨true, [-1, 11, 12]⟩] := by
   decide
 
 /-- parent destroyed first, a failed resize, a view and a soft link left over -/
 def witnessViews : List Op :=
-  [.new 4 1, .slice 0 1 2 1, .destroy 0, .softLink 0, .resize 0 (-2) 0]
+  [.new .vec 4 0 1, .view 0 (.slice 1 2 1), .destroy 0, .softLink 0, .resize 0 false (-2) 0 0]
 
 example : ((run init witnessViews).heap.map (·.freed) = [false]) ∧ (run init witnessViews).pool.length = 2 ∧
     nStorageObjects (run init witnessViews) = 1 ∧
-    (match readView (run init witnessViews) ⟨.sto 0, 1, some 0, 2, 1⟩ with | .ok vs => vs | .error _ => []) = [2, 3] ∧
+    (match readView (run init witnessViews) ⟨.vec, .sto 0, 1, some 0, 2, 1, 0, 0⟩ with | .ok vs => vs | .error _ => []) = [2, 3] ∧
     ((run init (witnessViews ++ [.destroy 0])).heap.map (·.freed) = [true]) ∧
     nStorageObjects (run init (witnessViews ++ [.destroy 0, .destroy 0])) = 0 := by
+  decide
+
+/-- rejected operations really occur, with each documented exception class, and change nothing: a reversed range,
+    `diag_vector` beyond the matrix (array and symmetric matrix), `reshape` to the wrong size and to negative extents,
+    `submatrix_on_diagonal` out of range, `diag_vector` of a non-square matrix, a band diagonal that is not stored,
+    a repeated dimension in `permute`, a negative and a non-square `resize`, `link` to an empty array, a sum of
+    vectors of different length -/
+def errOf (r : Except Err St) : Option Err :=
+  match r with
+  | .ok _ => none
+  | .error e => some e
+
+def rejectBase : St :=
+  run init [.new .vec 6 0 1, .new .mat 3 3 1, .new .mat 2 3 1, .new .symm 3 0 1, .new .tri 3 0 1, .newEmpty .vec,
+            .new .avec 2 0 1]
+
+example :
+    errOf (step rejectBase (.view 0 (.slice 4 1 1))) = some .invalidDimension ∧
+    errOf (step rejectBase (.view 1 (.diag 5))) = some .invalidDimension ∧
+    errOf (step rejectBase (.view 3 (.diag (-4)))) = some .invalidDimension ∧
+    errOf (step rejectBase (.view 0 (.reshape 4 2))) = some .invalidDimension ∧
+    errOf (step rejectBase (.view 0 (.reshape (-2) (-3)))) = some .invalidDimension ∧
+    errOf (step rejectBase (.view 1 (.subDiag 1 3))) = some .indexOutOfBounds ∧
+    errOf (step rejectBase (.view 3 (.subDiag 2 1))) = some .indexOutOfBounds ∧
+    errOf (step rejectBase (.view 2 (.diag 0))) = some .invalidOperation ∧
+    errOf (step rejectBase (.view 4 (.diag 2))) = some .indexOutOfBounds ∧
+    errOf (step rejectBase (.view 1 (.permute 1 1))) = some .invalidDimension ∧
+    errOf (step rejectBase (.resize 1 false 2 (-1) 0)) = some .invalidDimension ∧
+    errOf (step rejectBase (.resize 3 false 2 3 0)) = some .invalidDimension ∧
+    errOf (step rejectBase (.link 0 5)) = some .emptyArray ∧
+    errOf (step rejectBase (.newSum 0 5)) = some .sizeMismatch ∧
+    errOf (step rejectBase (.assignCopy 1 2)) = some .sizeMismatch ∧
+    (run rejectBase [.view 0 (.slice 4 1 1), .view 1 (.diag 5), .link 0 5]).heap = rejectBase.heap ∧
+    (run rejectBase [.view 0 (.slice 4 1 1), .view 1 (.diag 5), .link 0 5]).pool = rejectBase.pool := by
+  decide
+
+/-- views of every kind share, gradients are registered while the active data live, and everything is released once -/
+def witnessKinds : List Op :=
+  [.new .mat 3 3 1, .view 0 (.diag 1), .view 0 .transpose, .view 0 (.row 1 0 2 2), .destroy 0,
+   .new .symm 3 0 1, .view 3 (.subDiag 1 2), .view 3 (.diag (-1)),
+   .new .avec 4 0 1, .view 6 (.slice 1 3 2), .destroy 6]
+
+example : ((run init witnessKinds).heap.map (·.nLinks) = [3, 3, 1]) ∧ (run init witnessKinds).gradReg = 4 ∧
+    (match readView (run init witnessKinds) ⟨.vec, .sto 0, 1, some 0, 2, 4, 0, 0⟩ with | .ok vs => vs | .error _ => []) = [2, 6] ∧
+    (match readView (run init witnessKinds) ⟨.symm, .sto 1, 4, some 1, 2, 3, 0, 0⟩ with | .ok vs => vs | .error _ => []) = [3, 5, 6] ∧
+    (run init (witnessKinds ++ List.replicate 7 (.destroy 0))).pool = [] ∧
+    (run init (witnessKinds ++ List.replicate 7 (.destroy 0))).gradReg = 0 ∧
+    nStorageObjects (run init (witnessKinds ++ List.replicate 7 (.destroy 0))) = 0 := by
+  decide
+
+/-- allocation faults really occur and leave consistent counts: a symmetric matrix sharing data with a copy, resized
+    while the next allocation fails (the situation of seeded regression C14_4): the copy keeps the data with exactly one
+    link, the failed object is empty, destroying both releases the Storage once -/
+def witnessFault : List Op :=
+  [.new .symm 3 0 1, .copyCtor 0, .failNext 1, .resize 1 true 2 2 0]
+
+example : (run init witnessFault).thrown = true ∧ (run init witnessFault).heap.map (·.nLinks) = [1] ∧
+    (run init witnessFault).pool.map (·.storage) = [some 0, none] ∧ (run init witnessFault).failIn = 0 ∧
+    (run init witnessFault).pool[1]? = some (blank .symm) ∧
+    nStorageObjects (run init (witnessFault ++ [.destroy 1])) = 1 ∧
+    nStorageObjects (run init (witnessFault ++ [.destroy 1, .destroy 0])) = 0 ∧
+    (run init (witnessFault ++ [.destroy 1, .destroy 0])).thrown = false ∧
+    -- a constructor and an aliased assignment whose allocation fails leave everything as it was
+    (run init [.new .vec 4 0 1, .failNext 1, .new .vec 3 0 1]).pool.length = 1 ∧
+    (run init [.new .vec 4 0 1, .view 0 (.slice 1 3 1), .view 0 (.slice 0 2 1), .failNext 1, .assignCopy 1 2]).thrown = true := by
   decide
 
 end Adept.Storage
